@@ -1,6 +1,7 @@
 use crate::*;
 use batch_tools::asset_categorizer::AssetCategorizer;
 use batch_tools::proposals::TxProposal;
+use std::collections::HashSet;
 
 #[wasm_bindgen]
 pub struct TransactionBatchList(Vec<TransactionBatch>);
@@ -121,6 +122,16 @@ pub fn create_send_all(
     utxos: &TransactionUnspentOutputs,
     config: &TransactionBuilderConfig,
 ) -> Result<TransactionBatchList, JsError> {
+    // a UTxO can be spent only once: an entry that repeats an already supplied input is ignored
+    let mut supplied_inputs = HashSet::new();
+    let utxos = &TransactionUnspentOutputs(
+        utxos
+            .0
+            .iter()
+            .filter(|utxo| supplied_inputs.insert(utxo.input.clone()))
+            .cloned()
+            .collect(),
+    );
     let mut tx_batch_builder = TxBatchBuilder::new(utxos, address, config)?;
     let batch = tx_batch_builder.build(utxos)?;
     Ok(TransactionBatchList(vec![batch]))
